@@ -89,11 +89,6 @@ def known_par(case):
     return any(par_unsupported(r) for r in case["rules"])
 
 
-def known_varcmp(case):
-    """known_C05_varcmp (Classes.v): a filter compares two variables with an operator other than = / !=."""
-    return any("var" in f and f["op"] not in ("=", "!=") for r in case["rules"] for f in r.get("filt", []))
-
-
 def known_neg(case):
     return any(len(r.get("neg", [])) > 0 for r in case["rules"])
 
@@ -419,8 +414,8 @@ def evaluate_large(ctx, binpath, cases, stream, threads=None):
             ctx.broken("correspondence", stream, "Spec evaluation failed on a large case: %s" % (mo[1],), {"large": c["large"], "n": c["n"]})
             want.append(None)
             continue
-        lm, strat, (kpar, kneg, safe, kfeed, kvar) = mo
-        if (kpar, kneg, safe, kfeed, kvar) != (known_par(c), known_neg(c), all(safe_rule(r) for r in c["rules"]), known_neg_feed(c), known_varcmp(c)):
+        lm, strat, (kpar, kneg, safe, kfeed) = mo
+        if (kpar, kneg, safe, kfeed) != (known_par(c), known_neg(c), all(safe_rule(r) for r in c["rules"]), known_neg_feed(c)):
             ctx.broken("correspondence", stream, "class predicates of checks/c05.py and Classes.v disagree", {"large": c["large"], "n": c["n"]})
             want.append(None)
             continue
@@ -577,10 +572,9 @@ def evaluate_programs(ctx, binpath, cases, stream, pairs=None):
             m_spelled = model_triple(sp[1])     # the naive strategy with the join keys the spellings denote
         spec = None if mo[4] is None else fset(mo[4][1])
         kpar_m, kneg_m, safe_m = mo[5]
-        strat, kfeed_m, accepted_m, kvar_m = mo[6]
+        strat, kfeed_m, accepted_m = mo[6]
         kpar, kneg, safe = known_par(c), known_neg(c), all(safe_rule(r) for r in c["rules"])
         kfeed = known_neg_feed(c)
-        kvar = known_varcmp(c)
         if not accepted_m:
             # unsafe negation: Reasoner::try_add_rule must reject the program (shared/src/rule.rs check_rule_safety)
             st["unsafe_negation"] = st.get("unsafe_negation", 0) + 1
@@ -589,7 +583,7 @@ def evaluate_programs(ctx, binpath, cases, stream, pairs=None):
                 ctx.broken("correspondence", stream, "a rule with an unsafe negated atom was not rejected by try_add_rule (model: check_rule_safety = false)",
                            {"case": c, "impl": im})
             continue
-        if (kpar, kneg, safe, kfeed, kvar) != (kpar_m, kneg_m, safe_m, kfeed_m, kvar_m):
+        if (kpar, kneg, safe, kfeed) != (kpar_m, kneg_m, safe_m, kfeed_m):
             ctx.broken("correspondence", stream, "class predicates of checks/c05.py and Classes.v disagree", c)
             continue
         if spec is None or any(m[s] is None for s in STRATS):
@@ -635,7 +629,6 @@ def evaluate_programs(ctx, binpath, cases, stream, pairs=None):
             in_neg = kneg and s != "prov"
             in_feed = kneg and s == "prov" and kfeed
             in_synth = known_synth(c) and s != "par"
-            in_varcmp = kvar and s != "par"
             if not stratified:
                 want = None     # the two-level split is not a stratification of this program: no specified answer
             else:
@@ -655,9 +648,7 @@ def evaluate_programs(ctx, binpath, cases, stream, pairs=None):
             if in_feed:
                 st["in_known_neg_feed"] += 1
             if not ok_spec:
-                if in_varcmp and is_known(ctx, "C05-filter-var-order-ignored"):
-                    st["known_varcmp_reproduced"] = st.get("known_varcmp_reproduced", 0) + 1
-                elif in_synth and is_known(ctx, "C05-synthetic-var-capture"):
+                if in_synth and is_known(ctx, "C05-synthetic-var-capture"):
                     st["known_synth_reproduced"] = st.get("known_synth_reproduced", 0) + 1
                 elif in_neg and is_known(ctx, "C05-negation-ignored"):
                     st["known_neg_reproduced"] += 1
@@ -687,8 +678,6 @@ def evaluate_programs(ctx, binpath, cases, stream, pairs=None):
                         if s == "par" and known_par(cases[a]) and is_known(ctx, "C05-parallel-shapes"):
                             continue
                         if known_neg(cases[a]) and (s != "prov" or known_neg_feed(cases[a])):
-                            continue
-                        if known_varcmp(cases[a]) and s != "par":
                             continue
                         ctx.violation({"case": cases[a], "reordered": cases[b], "strategy": s},
                                       {"what": "result depends on rule/fact order", "first": ra[s], "second": rb[s]})
